@@ -36,6 +36,7 @@ import (
 	"errors"
 	"fmt"
 	"io"
+	"math"
 	"os"
 	"path/filepath"
 	"sort"
@@ -132,13 +133,20 @@ func c02AddrG(env byte, idx int, id string, apad int) string {
 
 // c02Grow is the size dimension of a case: every recipient address is apad bytes longer, every error text the
 // scripted target returns (and every error text of a hand-made meta-data file) epad bytes longer.
-type c02Grow struct{ apad, epad int }
+type c02Grow struct {
+	apad, epad int
+	tm         c02Sched // the retry schedule the queue is configured with (token `W…`; rides along with the size dimension)
+}
 
 func (g c02Grow) token() string {
-	if g.apad == 0 && g.epad == 0 {
-		return ""
+	var t []string
+	if g.apad != 0 || g.epad != 0 {
+		t = append(t, fmt.Sprintf("G%d,%d", g.apad, g.epad))
 	}
-	return fmt.Sprintf("G%d,%d", g.apad, g.epad)
+	if s := g.tm.token(); s != "" {
+		t = append(t, s)
+	}
+	return strings.Join(t, " ")
 }
 
 func c02ParseGrow(t string) (c02Grow, bool) {
@@ -154,7 +162,131 @@ func c02ParseGrow(t string) (c02Grow, bool) {
 	if e1 != nil || e2 != nil || a < 0 || e < 0 || a > 200 || e > 100000 {
 		return c02Grow{}, false
 	}
-	return c02Grow{a, e}, true
+	return c02Grow{apad: a, epad: e}, true
+}
+
+// c02Sched: the retry schedule of the queue under test — token `W<i>,<s>,<p>`: initial_retry_time i microseconds,
+// retry_time_scale s/100, post-init delay p microseconds.  The zero value (no token) is the configuration of the
+// repo's own test helpers the harness always used: 0, scale 1, 0 — in which every delay formula collapses to
+// "at once".  A production set-up has initial_retry_time 15m, retry_time_scale 1.25 and a post-init delay of 10 s: the
+// shape (non-zero, scale factor not an integer, powers that are truncated / that overflow for the "no attempt yet"
+// sentinel of readDiskQueue) is kept, the unit is scaled down to milliseconds so that a run still ends at once.
+type c02Sched struct{ initUs, scale100, postUs int }
+
+func (s c02Sched) isSet() bool { return s != c02Sched{} }
+
+func (s c02Sched) token() string {
+	if !s.isSet() {
+		return ""
+	}
+	return fmt.Sprintf("W%d,%d,%d", s.initUs, s.scale100, s.postUs)
+}
+
+func c02SchedStat(out *vh.Out, prefix string, s c02Sched) {
+	if !s.isSet() {
+		out.Stat(prefix + ".retry-schedule.test-helper(0,scale-1,0)")
+		return
+	}
+	out.Stat(prefix + ".retry-schedule.production-shaped")
+	out.Stat(fmt.Sprintf("%s.retry-schedule.initial-%dus", prefix, s.initUs))
+	out.Stat(fmt.Sprintf("%s.retry-schedule.scale-%d%%", prefix, s.scale100))
+	out.Stat(fmt.Sprintf("%s.retry-schedule.post-init-%dus", prefix, s.postUs))
+}
+
+func (s c02Sched) scale() float64 {
+	if !s.isSet() {
+		return 1
+	}
+	return float64(s.scale100) / 100
+}
+
+func c02ParseSched(t string) (c02Sched, bool) {
+	if len(t) < 6 || t[0] != 'W' {
+		return c02Sched{}, false
+	}
+	p := strings.Split(t[1:], ",")
+	if len(p) != 3 {
+		return c02Sched{}, false
+	}
+	var v [3]int
+	for i := range p {
+		n, err := strconv.Atoi(p[i])
+		if err != nil || n < 0 {
+			return c02Sched{}, false
+		}
+		v[i] = n
+	}
+	if v[0] > 50000 || v[1] < 1 || v[1] > 100000 || v[2] > 50000 {
+		return c02Sched{}, false
+	}
+	return c02Sched{v[0], v[1], v[2]}, true
+}
+
+// c02GenSched: a third of the inputs run under a production-shaped retry schedule.
+func c02GenSched(r *vh.Rng) c02Sched {
+	if !r.Chance(34) {
+		return c02Sched{}
+	}
+	return c02Sched{
+		initUs:   []int{1000, 2000, 500, 3000, 1000, 0}[r.Intn(6)],
+		scale100: []int{125, 125, 125, 150, 200, 300, 100, 75, 400}[r.Intn(9)],
+		postUs:   []int{0, 0, 1000, 3000}[r.Intn(4)],
+	}
+}
+
+// c02SchedHorizon: no slot of the time wheel may be due later than this after "now" — the largest delay the
+// configured schedule can produce (initial_retry_time * scale^max_tries, or the post-init delay) plus ten minutes
+// (the harness configures milliseconds: the margin is five orders of magnitude, not a timing assumption).
+func c02SchedHorizon(s c02Sched, maxTries int, post time.Duration) time.Duration {
+	d := float64(s.initUs) * 1e3 * math.Pow(math.Max(s.scale(), 1), float64(maxTries+1))
+	if d > float64(time.Hour) {
+		d = float64(time.Hour)
+	}
+	return time.Duration(d) + post + 10*time.Minute
+}
+
+// c02WheelFar looks at the queue's time wheel: a slot that is due beyond the horizon is a message the queue will, for
+// all practical purposes, never attempt (the real defect class: a delay formula that overflows / is clamped to
+// "never" for some stored state).  Returns the ids of such slots and a description of the first one.
+func c02WheelFar(q *Queue, horizon time.Duration) (ids []string, desc string) {
+	if q.wheel == nil {
+		return nil, ""
+	}
+	q.wheel.slotsLock.Lock()
+	defer q.wheel.slotsLock.Unlock()
+	now := time.Now()
+	atomic.AddInt64(&c02WheelPeeks, 1)
+	for e := q.wheel.slots.Front(); e != nil; e = e.Next() {
+		slot, ok := e.Value.(TimeSlot)
+		if !ok {
+			continue
+		}
+		d := slot.Time.Sub(now)
+		atomic.AddInt64(&c02SlotsSeen, 1)
+		if d > 0 {
+			atomic.AddInt64(&c02SlotsFuture, 1)
+		}
+		if d > horizon {
+			id := "?"
+			if qs, ok := slot.Value.(queueSlot); ok {
+				id = qs.ID
+			}
+			cls := "more than ten minutes"
+			switch {
+			case d > 100*365*24*time.Hour:
+				cls = "more than a century"
+			case d > 365*24*time.Hour:
+				cls = "more than a year"
+			case d > 24*time.Hour:
+				cls = "more than a day"
+			}
+			if desc == "" {
+				desc = fmt.Sprintf("message %s is on the time wheel for a moment %s beyond the longest delay the configured retry schedule can produce", id, cls)
+			}
+			ids = append(ids, id)
+		}
+	}
+	return ids, desc
 }
 
 // c02ErrPad: what makes an error text epad bytes longer — the kind of multi-line explanation real servers send.
@@ -796,12 +928,14 @@ func c02AnyFault(lg []*vos.Entry) bool {
 }
 
 type c02SegOut struct {
-	raced bool // the external deletion came too late (discard the case)
-	hung  bool // the run stopped making progress while deliveries were still owed (logs/final: the state it is stuck in)
-	logs  map[string][]*vos.Entry
-	final map[string]map[string]vos.FState // id → kind → file
-	bad   map[string]bool
-	files map[string][]byte // the directory when the run was over (base name → content)
+	raced  bool // the external deletion came too late (discard the case)
+	hung   bool // the run stopped making progress while deliveries were still owed (logs/final: the state it is stuck in)
+	farIDs []string
+	far    string // hung because the time wheel holds a message that is due beyond the horizon of the retry schedule (description)
+	logs   map[string][]*vos.Entry
+	final  map[string]map[string]vos.FState // id → kind → file
+	bad    map[string]bool
+	files  map[string][]byte // the directory when the run was over (base name → content)
 }
 
 var c02Base string
@@ -841,6 +975,25 @@ func c02RunRecovery(in c02SegIn) c02SegOut {
 }
 
 var c02HangsNotRepeated int64
+var c02WheelPeeks, c02SlotsSeen, c02SlotsFuture, c02SchedRuns int64
+var c02FarSlots int64 // runs abandoned because a message was scheduled beyond the horizon of the retry schedule
+
+// c02HangSig / c02HangWhy: a run that was abandoned is reported as stuck (nothing happened for c02Patience()) or, when
+// the time wheel showed why nothing is ever going to happen, as a message that is never due.
+func c02HangSig(rec c02SegOut, stuck string) string {
+	if rec.far != "" {
+		return "C02/retry-never-due"
+	}
+	return stuck
+}
+
+func c02HangWhy(rec c02SegOut, stuck string) string {
+	if rec.far != "" {
+		return "the run was abandoned: " + rec.far + " (it is not going to be attempted in any foreseeable future) — " + stuck
+	}
+	return stuck
+}
+
 var c02NegLive int64
 var c02StartErrs int64
 
@@ -885,12 +1038,17 @@ func c02RunSegment(in c02SegIn) c02SegOut {
 	lg := &c02Log{}
 	mod, _ := NewQueue("", "queue", nil, nil)
 	q := mod.(*Queue)
-	q.initialRetryTime = 0
-	q.retryTimeScale = 1
-	q.postInitDelay = 0
+	q.initialRetryTime = time.Duration(in.grow.tm.initUs) * time.Microsecond
+	q.retryTimeScale = in.grow.tm.scale()
+	q.postInitDelay = time.Duration(in.grow.tm.postUs) * time.Microsecond
 	if in.extDel != "" {
 		q.postInitDelay = 250 * time.Millisecond
 	}
+	horizon := c02SchedHorizon(in.grow.tm, in.maxTries, q.postInitDelay)
+	if in.grow.tm.isSet() {
+		atomic.AddInt64(&c02SchedRuns, 1)
+	}
+	far := ""
 	q.maxTries = in.maxTries
 	q.location = dir
 	q.Target = tgt
@@ -934,6 +1092,9 @@ func c02RunSegment(in c02SegIn) c02SegOut {
 		}
 		break
 	}
+	// (the schedule the start-up scan made is looked at below, with the one of the retries: every stored message
+	// must be due within the configured schedule)
+	var farIDs []string
 	raced := false
 	if in.extDel != "" && !hung {
 		p := strings.SplitN(in.extDel, ":", 2)
@@ -1061,9 +1222,15 @@ func c02RunSegment(in c02SegIn) c02SegOut {
 	// while deliveries are still owed is stuck: it is reported by the callers (never waited for again).
 	deadline := time.Now().Add(90 * time.Second)
 	lastProgress, lastCount := time.Now(), -1
+	lastPeek := time.Time{}
 	for !hung {
 		if cnt := progress(); cnt != lastCount {
 			lastCount, lastProgress = cnt, time.Now()
+		}
+		if time.Since(lastPeek) > 2*time.Millisecond {
+			// a retry the queue scheduled in this run (tryDelivery) obeys the same horizon
+			lastPeek = time.Now()
+			farIDs, far = c02WheelFar(q, horizon)
 		}
 		lg.mu.Lock()
 		cmu.Lock()
@@ -1075,6 +1242,14 @@ func c02RunSegment(in c02SegIn) c02SegOut {
 		cmu.Unlock()
 		lg.mu.Unlock()
 		if live == 0 {
+			far, farIDs = "", nil
+			break
+		}
+		if len(farIDs) > 0 && live == len(farIDs) {
+			// everything else is done; the messages that are left are not going to be attempted in any foreseeable
+			// future: the run is over, and they count as never attempted (like in a run that is stuck)
+			hung = true
+			atomic.AddInt64(&c02FarSlots, 1)
 			break
 		}
 		if live > 0 && time.Since(lastProgress) > c02Patience() {
@@ -1099,7 +1274,7 @@ func c02RunSegment(in c02SegIn) c02SegOut {
 		}
 		time.Sleep(100 * time.Microsecond)
 	}
-	if !hung && atomic.LoadInt32(&closed) == 0 {
+	if (!hung || far != "") && atomic.LoadInt32(&closed) == 0 {
 		q.Close()
 	}
 
@@ -1115,7 +1290,10 @@ func c02RunSegment(in c02SegIn) c02SegOut {
 			panic("c02: shadow differs from the directory for " + e.Name())
 		}
 	}
-	out := c02SegOut{raced: raced, hung: hung, logs: map[string][]*vos.Entry{}, final: map[string]map[string]vos.FState{}, bad: tgt.bad, files: map[string][]byte{}}
+	if !hung {
+		far, farIDs = "", nil
+	}
+	out := c02SegOut{raced: raced, hung: hung, far: far, farIDs: farIDs, logs: map[string][]*vos.Entry{}, final: map[string]map[string]vos.FState{}, bad: tgt.bad, files: map[string][]byte{}}
 	for name, st := range sh {
 		out.files[name] = st.Data
 	}
@@ -1660,6 +1838,9 @@ func (x *c02Explorer) backlogLine(ctx *c02RecCtx) (string, bool) {
 		if k == 0 && x.loc > 0 {
 			spec += " " + c02LocToken(x.loc)
 		}
+		if k == 0 && x.grow.tm.isSet() {
+			spec += " " + x.grow.tm.token()
+		}
 		for _, o := range ctx.outcomes[id] {
 			spec += " O" + o
 		}
@@ -1698,7 +1879,7 @@ func (x *c02Explorer) lost(ctx *c02RecCtx, sig, op, detail string) {
 			// a stuck run may depend on how the deliveries interleave: the reduced directory gets two tries
 			for try := 0; try < 2 && !ctx.reproduced; try++ {
 				ctx.reproduced = c02RunBacklog(x.out, line) > 0
-				if sig != "C02/recovery-hang" {
+				if sig != "C02/recovery-hang" && sig != "C02/retry-never-due" {
 					break
 				}
 			}
@@ -2140,7 +2321,7 @@ func (x *c02Explorer) judge(id string, h c02Hist, crashFiles map[string][]byte, 
 	if rec.hung {
 		// the run is stuck: nothing more happens to any message of the directory
 		if len(rec.logs[id]) > 0 || (hasM && hasH && hasB) {
-			x.lost(ctx, "C02/recovery-hang", op, "the recovery run stopped making progress while the queue still owed a delivery; "+detail())
+			x.lost(ctx, c02HangSig(rec, "C02/recovery-hang"), op, c02HangWhy(rec, "the recovery run stopped making progress while the queue still owed a delivery")+"; "+detail())
 		}
 		return
 	}
@@ -2382,6 +2563,7 @@ func c02GenScenario(r *vh.Rng) c02Scenario {
 	// max_parallelism of the recovery runs: mostly smaller than the number of messages in the spool
 	sc.par = []int{1, 2, 1, 2, 4}[r.Intn(5)]
 	sc.loc = c02GenLoc(r)
+	sc.grow.tm = c02GenSched(r)
 	hls := c02HeaderLens()
 	base := hls[2]
 	two := len(c02HeaderBytes(c02MakeHeader(0)))
@@ -2481,12 +2663,13 @@ func c02GenBigScenario(r *vh.Rng, class int) c02Scenario {
 	if sz[0] > 9000 {
 		sz[0] = 9000 // the largest records are hand-made (one line each); a real run is crashed a dozen times
 	}
-	sc := c02Scenario{maxTries: 2 + r.Intn(2), out0: map[string][]string{}, big: true, grow: c02Grow{sz[1], sz[2]}}
+	sc := c02Scenario{maxTries: 2 + r.Intn(2), out0: map[string][]string{}, big: true, grow: c02Grow{apad: sz[1], epad: sz[2]}}
 	sc.par = 4
 	sc.loc = 0
 	if r.Chance(25) {
 		sc.loc = c02GenLoc(r)
 	}
+	sc.grow.tm = c02GenSched(r)
 	hls := c02HeaderLens()
 	a := c02Accept{id: "a1", n: sz[0], hl: hls[2], bl: []int{7, 0, 300}[r.Intn(3)], fate: 'c', env: "pppnim"[r.Intn(6)]}
 	sc.accepts = []c02Accept{a}
@@ -2519,7 +2702,7 @@ func c02GenBigSyn(r *vh.Rng, class int) string {
 			line += " " + c02LocToken(l)
 		}
 	}
-	if g := (c02Grow{sz[1], sz[2]}).token(); g != "" {
+	if g := (c02Grow{apad: sz[1], epad: sz[2], tm: c02GenSched(r)}).token(); g != "" {
 		line += " " + g
 	}
 	script := func() {
@@ -2547,10 +2730,17 @@ func c02RunScenario(out *vh.Out, sc c02Scenario, r *vh.Rng, seen *sync.Map, only
 	}
 	seg0 := c02RunSegment(c02SegIn{maxTries: sc.maxTries, accepts: sc.accepts, outcomes: sc.out0, expect: expect, stagger: sc.stagger, par: 8, loc: sc.loc, grow: sc.grow})
 	if seg0.hung {
-		htoks := c02Tokens(seg0.logs[sc.accepts[0].id], c02Cut{pos: len(seg0.logs[sc.accepts[0].id])}, false)
+		first := sc.accepts[0]
+		for _, a := range sc.accepts {
+			// the message the time wheel holds for a moment that never comes is the one to name
+			if len(seg0.farIDs) > 0 && a.id == seg0.farIDs[0] {
+				first = a
+			}
+		}
+		htoks := c02Tokens(seg0.logs[first.id], c02Cut{pos: len(seg0.logs[first.id])}, false)
 		if len(htoks) == 0 {
 			// nothing happened at all (the queue did not even start): name the transaction that was to be made
-			a := sc.accepts[0]
+			a := first
 			htoks = []string{"A" + c02AToken(a.n, a.hl, a.bl, a.envL())}
 			if a.fate == 'c' {
 				htoks = append(htoks, "C")
@@ -2558,8 +2748,8 @@ func c02RunScenario(out *vh.Out, sc c02Scenario, r *vh.Rng, seen *sync.Map, only
 				htoks = append(htoks, "B")
 			}
 		}
-		c02V(out, "C02/queue-hang", fmt.Sprintf("C02 run %d 1 %s", sc.maxTries, c02LocPrefix(sc.loc)+strings.TrimLeft(sc.grow.token()+" ", " ")+strings.Join(htoks, " ")),
-			fmt.Sprintf("the queue stopped making progress (or refused to start) in a run without any crash (%d messages, max_parallelism 8, spool directory %q) while it still owed deliveries", len(sc.accepts), c02DirNames[sc.loc]))
+		c02V(out, c02HangSig(seg0, "C02/queue-hang"), fmt.Sprintf("C02 run %d 1 %s", sc.maxTries, c02LocPrefix(sc.loc)+strings.TrimLeft(sc.grow.token()+" ", " ")+strings.Join(htoks, " ")),
+			c02HangWhy(seg0, fmt.Sprintf("the queue stopped making progress (or refused to start) in a run without any crash (%d messages, max_parallelism 8, spool directory %q) while it still owed deliveries", len(sc.accepts), c02DirNames[sc.loc])))
 		return
 	}
 	x := &c02Explorer{out: out, maxTries: sc.maxTries, expect: expect, norig: norig, env: envs, outs: recOuts, maxDepth: maxDepth,
@@ -2618,6 +2808,7 @@ func c02RunScenario(out *vh.Out, sc c02Scenario, r *vh.Rng, seen *sync.Map, only
 	out.Stat(fmt.Sprintf("scenario.stagger.%d", sc.stagger))
 	out.Stat(fmt.Sprintf("scenario.recovery-max-parallelism.%d", x.parOr4()))
 	out.Stat(fmt.Sprintf("scenario.spool-dir-name.%d", sc.loc))
+	c02SchedStat(out, "scenario", sc.grow.tm)
 	x.explore(seg0, false, hist, 1)
 }
 
@@ -2704,7 +2895,11 @@ func c02Replay(out *vh.Out, op string, seen *sync.Map) {
 		case t[0] == 'L':
 			sc.loc, _ = c02ParseLoc(t)
 		case t[0] == 'G':
+			tm := sc.grow.tm
 			sc.grow, _ = c02ParseGrow(t)
+			sc.grow.tm = tm
+		case t[0] == 'W':
+			sc.grow.tm, _ = c02ParseSched(t)
 		case t == "Q":
 			// Queue.Close inside the transaction: before Body (no file operation yet) or after it
 			if seg == 0 {
@@ -2816,7 +3011,11 @@ func c02ParseSyn(id string, f []string) (*c02SynSpec, bool) {
 	}
 	for _, t := range f[6:] {
 		if g, ok := c02ParseGrow(t); ok {
+			g.tm = sp.grow.tm
 			sp.grow = g
+		}
+		if tm, ok := c02ParseSched(t); ok {
+			sp.grow.tm = tm
 		}
 	}
 	if h != "H-" {
@@ -2964,6 +3163,7 @@ func c02JudgeSyn(out *vh.Out, stat string, maxTries int, sp *c02SynSpec, recs []
 		out.Stat(fmt.Sprintf("%s.big.%s.addr+%d.errtext+%d", stat, strings.SplitN(sp.f[3], ";", 2)[0], sp.grow.apad, sp.grow.epad))
 	}
 	out.Stat(fmt.Sprintf("%s.spool-dir-name.%d", stat, sp.loc))
+	c02SchedStat(out, stat, sp.grow.tm)
 	line := fmt.Sprintf("C02 syn %d %s %s", maxTries, strings.Join(sp.f, " "), strings.Join(toks, " "))
 	line = strings.TrimSpace(line)
 	labels := c02Labels(rec.logs[id], true)
@@ -3019,6 +3219,9 @@ func c02JudgeSyn(out *vh.Out, stat string, maxTries int, sp *c02SynSpec, recs []
 			stuck := ""
 			if rec.hung {
 				stuck = " (the recovery run stopped making progress: nothing more is going to happen to this message)"
+				if rec.far != "" {
+					stuck = " (" + rec.far + ")"
+				}
 			}
 			viol("C02/accepted-lost", "pending recipient "+lost+" of the stored message "+why+quarantined+stuck+"; after restart: "+strings.Join(labels, " ")+"; files at the end: "+c02ShowDisk(rec.final[id], id))
 		}
@@ -3085,7 +3288,7 @@ func c02RunSyn(out *vh.Out, op string) {
 	}
 	n := c02JudgeSyn(out, "syn", maxTries, sp, recs, "")
 	if rec.hung && n == 0 {
-		c02V(out, "C02/recovery-hang", op, "the recovery run stopped making progress while the queue still owed a delivery (its own log: a message loaded or accepted, neither removed nor given up on)")
+		c02V(out, c02HangSig(rec, "C02/recovery-hang"), op, c02HangWhy(rec, "the recovery run stopped making progress while the queue still owed a delivery (its own log: a message loaded or accepted, neither removed nor given up on)"))
 	}
 }
 
@@ -3141,9 +3344,10 @@ func c02RunBacklog(out *vh.Out, op string) int {
 	if !flush() || len(specs) == 0 {
 		return 0
 	}
-	rec := c02RunRecovery(c02SegIn{maxTries: maxTries, files: files, outcomes: outcomes, recovery: true, par: par, loc: specs[0].loc})
+	rec := c02RunRecovery(c02SegIn{maxTries: maxTries, files: files, outcomes: outcomes, recovery: true, par: par, loc: specs[0].loc, grow: c02Grow{tm: specs[0].grow.tm}})
 	for _, sp := range specs {
 		sp.loc = specs[0].loc
+		sp.grow.tm = specs[0].grow.tm
 	}
 	out.Stat("backlog.runs")
 	out.Stat(fmt.Sprintf("backlog.messages.%d", len(specs)))
@@ -3164,7 +3368,7 @@ func c02RunBacklog(out *vh.Out, op string) int {
 	}
 	if rec.hung {
 		nviol++
-		c02V(out, "C02/recovery-hang", op, fmt.Sprintf("the recovery run on a spool of %d messages with max_parallelism %d stopped making progress while the queue still owed deliveries; never attempted: %s", len(specs), par, strings.Join(never, " ")))
+		c02V(out, c02HangSig(rec, "C02/recovery-hang"), op, c02HangWhy(rec, fmt.Sprintf("the recovery run on a spool of %d messages with max_parallelism %d stopped making progress while the queue still owed deliveries; never attempted: %s", len(specs), par, strings.Join(never, " "))))
 	}
 	return nviol
 }
@@ -3207,6 +3411,9 @@ func c02GenBacklog(r *vh.Rng) string {
 		if i == 0 {
 			if l := c02GenLoc(r); l > 0 {
 				line += " " + c02LocToken(l)
+			}
+			if tm := c02GenSched(r); tm.isSet() {
+				line += " " + tm.token()
 			}
 		}
 		for a := 0; a < maxTries+1; a++ {
@@ -3298,6 +3505,9 @@ func c02GenSyn(r *vh.Rng) string {
 	line := fmt.Sprintf("C02 syn %d %d %s %s %s %s %s", maxTries, hp, h, b, m, nn, xx)
 	if l := c02GenLoc(r); l > 0 {
 		line += " " + c02LocToken(l)
+	}
+	if tm := c02GenSched(r); tm.isSet() {
+		line += " " + tm.token()
 	}
 	zed := false
 	if n > 0 && h != "H-" && b != "B-" && hp == 1 && r.Chance(30) {
@@ -3449,6 +3659,13 @@ func TestVerifC02(t *testing.T) {
 	close(jobs)
 	wg.Wait()
 	out.StatN("real-queue-runs", int(atomic.LoadInt64(&c02Runs)))
+	out.StatN("real-queue-runs.under-a-production-shaped-retry-schedule", int(atomic.LoadInt64(&c02SchedRuns)))
+	out.StatN("monitor.time-wheel.looked-at", int(atomic.LoadInt64(&c02WheelPeeks)))
+	out.StatN("monitor.time-wheel.slots-seen", int(atomic.LoadInt64(&c02SlotsSeen)))
+	out.StatN("monitor.time-wheel.slots-seen.due-in-the-future(within-the-schedule)", int(atomic.LoadInt64(&c02SlotsFuture)-atomic.LoadInt64(&c02FarSlots)))
+	if n := int(atomic.LoadInt64(&c02FarSlots)); n > 0 {
+		out.StatN("real-queue-runs.abandoned(a-message-is-never-due)", n)
+	}
 	if n := int(atomic.LoadInt64(&c02NegLive)); n > 0 {
 		out.StatN("real-queue-runs.more-deliveries-ended-than-begun(by-the-queue's-log)", n)
 	}
